@@ -27,6 +27,7 @@ import EvalFilter.Proofs.CompJumps
 import EvalFilter.Proofs.ExprCorrect
 import EvalFilter.Proofs.StmtCorrect
 import EvalFilter.Proofs.FnDefs3
+import EvalFilter.Proofs.FnDefs4
 
 set_option linter.unusedSimpArgs false
 
@@ -278,22 +279,23 @@ theorem C02_program_correct (F : FnTable) (prog : Program) (hp : pureSs prog = t
 
 open EvalFilter.Exec in
 /-- **… scripts that define and call their own functions included, with no hypothesis about the machine.**
-    For every script of the statement forms above whose function definitions are at top level (bodies of any
-    size, calling each other and themselves, before or after their definition) and whose calls stand in the
+    For every script of the statement forms above, its function definitions wherever they stand - at top
+    level, inside blocks, inside other functions (bodies of any size, calling each other and themselves, before
+    or after their definition) - and whose calls of them stand in the
     positions `x = f(a, …);`, `f(a, …);` and `return f(a, …);`: the run of the compiled program ends with
-    exactly the outcome of the big-step semantics over the script's own function table `defsOf prog`. -/
-theorem C02_program_with_functions_correct (prog : Program) (hp : pureSs prog = true) (hn : topNd prog = true)
+    exactly the outcome of the big-step semantics over the script's own function table `allDefs prog`. -/
+theorem C02_program_with_functions_correct (prog : Program) (hp : pureSs prog = true)
     (hne : 1 ≤ Stmt.sizes prog) (c : Compiled)
     (hc : compileProgram prog = .ok c) (fns : List (Str × FnImpl)) (obj : HostVal) (env : Env) (out : Str)
     (polls depth f : Nat)
-    (hnd : execSs (Api.newMachine c false fns (fun _ => false)) (defsOf prog) obj depth f prog env out ≠ .diverged) :
+    (hnd : execSs (Api.newMachine c false fns (fun _ => false)) (allDefs prog) obj depth f prog env out ≠ .diverged) :
     ∃ n k, ∀ fuel, ∃ st',
       run (Api.newMachine c false fns (fun _ => false)) obj (fuel + n) ⟨env, out, polls, depth⟩ = st' ∧
-      (match programResult (polls + k) depth (execSs (Api.newMachine c false fns (fun _ => false)) (defsOf prog) obj depth f prog env out) with
+      (match programResult (polls + k) depth (execSs (Api.newMachine c false fns (fun _ => false)) (allDefs prog) obj depth f prog env out) with
        | some (r, s) => st'.1 = r ∧ st'.2.out = s.out ∧ st'.2.env.globals = s.env.globals ∧ st'.2.polls = s.polls
        | none => True) :=
-  program_correct (defsOf prog) prog hp hne c hc fns obj env out polls depth f
-    (fnOK_of_compile prog hp hn c hc fns obj) hnd
+  program_correct (allDefs prog) prog hp hne c hc fns obj env out polls depth f
+    (fnOK_of_compile_all prog hp c hc fns obj) hnd
 
 open EvalFilter.Exec in
 /-- what the semantics says, spelled out for a block: statements run one after the other while each
@@ -496,7 +498,6 @@ private def progR : Program :=
     .ret (.ident ['x']) ]
 private def compR : Compiled := match compileProgram progR with | .ok c => c | .error _ => ⟨[], [], []⟩
 example : pureSs progR = true := by decide
-example : topNd progR = true := by decide
 example : compileProgram progR = .ok compR := by
   have hok : (match compileProgram progR with | .ok _ => true | .error _ => false) = true := by decide +kernel
   unfold compR
@@ -504,7 +505,7 @@ example : compileProgram progR = .ok compR := by
   | ok c => rfl
   | error e => rw [h] at hok; cases hok
 /-- … and it yields 4! = 24 (evaluated by the kernel) -/
-example : (match execSs (Api.newMachine compR false [] (fun _ => false)) (defsOf progR) .nilIface 0 40 progR {} [] with
+example : (match execSs (Api.newMachine compR false [] (fun _ => false)) (allDefs progR) .nilIface 0 40 progR {} [] with
     | .returned (.int v) _ _ => v == 24
     | _ => false) = true := by decide +kernel
 /-- built-in functions called inside expressions and conditions:
@@ -516,14 +517,13 @@ private def progB : Program :=
     .ret (.intLit ['0'] 0) ]
 private def compB : Compiled := match compileProgram progB with | .ok c => c | .error _ => ⟨[], [], []⟩
 example : pureSs progB = true := by decide
-example : topNd progB = true := by decide
 example : compileProgram progB = .ok compB := by
   have hok : (match compileProgram progB with | .ok _ => true | .error _ => false) = true := by decide +kernel
   unfold compB
   cases h : compileProgram progB with
   | ok c => rfl
   | error e => rw [h] at hok; cases hok
-example : (match execSs (Api.newMachine compB false Api.defaultFns (fun _ => false)) (defsOf progB) .nilIface 0 20 progB {} [] with
+example : (match execSs (Api.newMachine compB false Api.defaultFns (fun _ => false)) (allDefs progB) .nilIface 0 20 progB {} [] with
     | .returned (.int v) _ _ => v == 8
     | _ => false) = true := by decide +kernel
 /-- the README's loop: `i = 0; sum = 0; while (i < 5) { sum += i; i++; } return sum;` yields 10 -/
@@ -536,14 +536,13 @@ private def progI : Program :=
     .ret (.ident ['s','u','m']) ]
 private def compI : Compiled := match compileProgram progI with | .ok c => c | .error _ => ⟨[], [], []⟩
 example : pureSs progI = true := by decide
-example : topNd progI = true := by decide
 example : compileProgram progI = .ok compI := by
   have hok : (match compileProgram progI with | .ok _ => true | .error _ => false) = true := by decide +kernel
   unfold compI
   cases h : compileProgram progI with
   | ok c => rfl
   | error e => rw [h] at hok; cases hok
-example : (match execSs (Api.newMachine compI false [] (fun _ => false)) (defsOf progI) .nilIface 0 40 progI {} [] with
+example : (match execSs (Api.newMachine compI false [] (fun _ => false)) (allDefs progI) .nilIface 0 40 progI {} [] with
     | .returned (.int v) _ _ => v == 10
     | _ => false) = true := by decide +kernel
 end nonvacuous
